@@ -85,6 +85,9 @@ class Module:
             self.tree = ast.parse(src, filename=path)
         except SyntaxError as e:
             raise AnalysisError("cannot parse %s: %s" % (path, e))
+        if os.environ.get("VERIF_NO_CANON") != "1":
+            from . import canon
+            self.tree = canon.normalise(self.tree)
         self.functions = {}     # top-level name -> Func
         self.classes = {}       # top-level name -> ClassInfo
         self.imports = {}       # local name -> (module rel or dotted, name|None)
